@@ -121,6 +121,8 @@ func decode(r *rec, model map[string]string) {
 		r.big = DecodeInt(model[r.Sym])
 	case "param":
 		r.n, _ = strconv.Atoi(r.Val)
+	case "paramstr":
+		r.s = r.Val
 	case "consts":
 		r.list = strings.Split(r.Val, "\x00")
 	}
